@@ -97,6 +97,14 @@ NcMixedKindCases == { Case("nc", pos - 1, [Chain(1) EXCEPT ![pos].nc = ncv, ![3]
                               [perm |-> <<>>, excl |-> <<Dns(<<"bad", "example", "test">>), Ip(V4Net, 24)>>], [perm |-> <<>>, excl |-> <<Ip(V6Net, 64), Ip(V4Net, 24), Dns(<<"bad", "example", "test">>)>>],
                               [perm |-> <<Ip(V6Net, 64), Dns(<<"example", "test">>), Ip(V4Net, 24)>>, excl |-> <<Ip(Net4b, 12), Dns(<<"bad", "example", "test">>)>>] },
                     nm \in { Dns(<<"www", "example", "test">>), Dns(<<"bad", "example", "test">>), Dns(<<"other", "org">>), Ip(V4Net, 32), Ip(<<172, 17, 1, 1>>, 32), Ip(<<203, 0, 113, 9>>, 32), Ip(V6Net, 128) } }
+(* names of a kind that no constraint of the chain speaks about (a URI next to DNS / IP constraints) change nothing *)
+Uri(l) == [v |-> "uri", labels |-> l, b |-> <<>>, p |-> 0, dot |-> FALSE]
+NcUriCases == { Case("nc", pos - 1, [Chain(1) EXCEPT ![pos].nc = ncv, ![3].names = nms], Now, "server") :
+                  pos \in 1..2,
+                  ncv \in { NcOf("perm", Dns(<<"example", "test">>)), NcOf("excl", Dns(<<"bad", "example", "test">>)), NcOf("both", Dns(<<"example", "test">>)),
+                            [perm |-> <<Dns(<<"example", "test">>), Ip(V4Net, 24)>>, excl |-> <<>>] },
+                  nms \in { <<Dns(<<"www", "example", "test">>), Uri(<<"id", "other", "org">>)>>, <<Uri(<<"bad", "example", "test">>), Dns(<<"www", "example", "test">>)>>,
+                            <<Dns(<<"other", "org">>), Uri(<<"www", "example", "test">>)>>, <<Uri(<<"www", "example", "test">>)>> } }
 (* several names: one inside, one outside *)
 NcMixCases == { Case("nc", 0, [Chain(1) EXCEPT ![1].nc = NcOf("perm", Dns(<<"example", "test">>)), ![3].names = nms], Now, "server") :
                   nms \in { <<Dns(<<"a", "example", "test">>), Dns(<<"b", "example", "test">>)>>, <<Dns(<<"a", "example", "test">>), Dns(<<"other", "org">>)>>,
@@ -108,7 +116,7 @@ KuSets == { <<>>, <<5>>, <<6>>, <<0, 5>>, <<0>>, <<0, 6>>, <<0, 6, 6>>, <<5, 6, 
 CertSignCases == { Case("certsign", pos - 1, [Chain(n) EXCEPT ![pos].ku = k], Now, "server") : n \in 0..2, pos \in 1..3, k \in KuSets }
 
 Wf(k) == k.pos + 1 <= Len(k.chain) /\ (k.grp \in {"caflag", "pathlen", "certsign", "nc"} => k.pos + 1 < Len(k.chain))
-Cases == { k \in OkCases \cup KidCases \cup CaFlagCases \cup CaFlagBareCases \cup FarTimeCases \cup PathLenCases \cup TimeCases \cup NcDnsCases \cup NcDotCases \cup NcIp4Cases \cup NcIp6Cases \cup NcMixCases \cup NcMixedKindCases \cup NcMappedCases \cup NcTwoIpCases
+Cases == { k \in OkCases \cup KidCases \cup CaFlagCases \cup CaFlagBareCases \cup FarTimeCases \cup PathLenCases \cup TimeCases \cup NcDnsCases \cup NcDotCases \cup NcIp4Cases \cup NcIp6Cases \cup NcMixCases \cup NcUriCases \cup NcMixedKindCases \cup NcMappedCases \cup NcTwoIpCases
                   \cup EkuCases \cup CertSignCases : Wf(k) }
 
 Init == c \in Cases /\ phase = "built" /\ verdict = FALSE
